@@ -7,7 +7,10 @@ lists of ints.  Nothing in the oracle imports or introspects the library.
 (a) decode   every declared value class x raw byte strings: from_list / check_raw /
              raw_to_value never raise and agree with the reference decoder, flags exactly
              where the reference has them.  Complete for widths 1 and 2 (both tiers),
-             boundary set + strided 3-byte sweep + Hypothesis for wider values.
+             boundary set + strided 3-byte sweep + Hypothesis for wider values.  Strings: NUL and
+             single bytes >= 0x80 at every position, and non-ASCII TEXT - well-formed UTF-8
+             characters of 2, 3 and 4 bytes (and UTF-16/Latin-1/double-byte ones, and ill-formed
+             look-alikes) at every position, full field / directly before / behind the NUL.
 (b) inverse  raw_to_value(value_to_raw(x)) == x for plain numbers (table kind "uint"/"cct")
              over all in-range numbers (<= 2 bytes) or a sample, and for strings of every
              length 0..len.
